@@ -329,6 +329,8 @@ class StmtMixin:
         if n.orelse:
             raise Unsupported("while/else")
         k, spec = self.loop_spec(n)
+        st = st.fork()
+        st.ghost["__loop_entry__"] = st
         self.check_invariants(st, k, spec, "inv-init", {}, n.lineno)
         h = self.havoc_for_loop(st, n, spec)
         h = self.assume_invariants(h, spec, {})
@@ -456,6 +458,8 @@ class StmtMixin:
             pos0 = z3.IntVal(0)
         n_len = z3.Length(seq.t) if virtual is None else virtual[0]
         elem_at = (lambda p: Val(seq.t[p], seq.ty[1])) if virtual is None else virtual[1]
+        st = st.fork()
+        st.ghost["__loop_entry__"] = st
         env0 = {"_i": Val(pos0, "int"), "_seq": seq} if seq is not None else {"_i": Val(pos0, "int")}
         self.check_invariants(st, k, spec, "inv-init", env0, n.lineno)
         h = self.havoc_for_loop(st, n, spec, extra_names=[itername] if itername else [])
